@@ -89,6 +89,9 @@ static unsigned spurious_left;
 static unsigned devpos;
 
 static uint64_t heap_live;
+#define MAXFD 16
+static int FDS[MAXFD];
+static int nfds;
 static uint64_t heap_base;        /* what the harness itself allocated for the argument vector */
 
 #define BIT(s) (1ull << (s))
@@ -207,6 +210,15 @@ finish(int outcome, int code, int exitcode)
   /* lbzip2 gives back every block before a successful exit (only the argument
      vector of the harness stays): anything else still allocated was lost on
      the way -- per block or per operand, so it grows with the input (C13) */
+  if (outcome == OC_EXIT && (code == 0 || code == 4) && nfds > 0) {
+    /* every file lbzip2 opens for an operand is closed again before the next
+       operand; a descriptor still open at a successful exit was lost on some
+       path (and the next operands inherit one descriptor less each time) */
+    if (!(vs_rec->inv_flags & ~(64u | 32u | 128u)))
+      snprintf(vs_rec->note, sizeof vs_rec->note, "%d file descriptor(s) opened by lbzip2 still open at exit status %d (first: %d)",
+               nfds, code, FDS[0]);
+    vs_rec->inv_flags |= 2048;
+  }
   if (outcome == OC_EXIT && (code == 0 || code == 4) && heap_live > heap_base) {
     if (!(vs_rec->inv_flags & ~(64u | 32u | 128u)))
       snprintf(vs_rec->note, sizeof vs_rec->note, "%llu bytes of heap never released at exit status %d",
@@ -1286,9 +1298,6 @@ vs_free(void *p)
   }
 }
 
-#define MAXFD 16
-static int FDS[MAXFD];
-static int nfds;
 
 /* File operations of the main thread (C16): each one is a scheduling point (so
    that an external signal can arrive just before it) and, when asked for, an
